@@ -163,6 +163,19 @@ def make_case(rng):
             conts.append(dict(id=cid, mode=mode, shape=shape, refs=[(t.id, t.shape, [fmt(v) for v in t.box.tuple()]) for t in refs],
                               trbl=[(k, fmt(v)) for k, v in trbl], feats=["inside." + shape] + ["ref." + t.shape for t in refs] + (["margin.inside"] if has_margin else [])))
         items.insert(rng.randint(0, len(items)), s)
+    if rng.random() < 0.06 and tops:
+        # negative family: a listed element that has no bounding box (empty group, size in absolute units) - the container
+        # cannot enclose 'all listed elements', so the document must be rejected rather than the member silently dropped
+        kind, member = rng.choice([("empty-group", '<g id="nb"/>'), ("unit-size", '<rect id="nb" x="1" y="2" width="3cm" height="10%"/>'),
+                                   ("empty-group-content", '<g id="nb"><title>t</title></g>')])
+        mode = rng.choice(["surround", "surround", "inside"])
+        others = rng.sample(tops, min(len(tops), rng.choice([1, 2]))) if mode == "surround" else [t for t in tops if t.shape in ("rect", "box")][:1]
+        refs = ["#nb"] + ["#" + t.id for t in others]
+        rng.shuffle(refs)
+        items.insert(rng.randint(0, len(items)), "  " + member)
+        items.append('  <rect id="neg" %s="%s"/>' % (mode, " ".join(refs)))
+        return dict(input=("<svg>\n" + "\n".join(items) + "\n</svg>").encode(), conts=[], expect_reject="%s/%s" % (mode, kind),
+                    feats=["negative.boxless-member." + kind, "negative." + mode])
     return dict(input=("<svg>\n" + "\n".join(items) + "\n</svg>").encode(), conts=conts, feats=sorted(set(f for c in conts for f in c["feats"])))
 
 
@@ -172,6 +185,12 @@ def check_case(ctx, case):
     r = ctx.run(case["input"], dict(auto=False))
     if r.crashed:
         acc.count("crashed(C01's business)")
+        return
+    if case.get("expect_reject"):
+        acc.nontriv(core.chash(case["input"]), case.get("feats", []))
+        if r.ok:
+            acc.violation("boxless-member-dropped", "accepted-with-boxless-member:" + case["expect_reject"], case, observed=core.trunc(r.out, 400), expected="Err",
+                          what="a surround/inside list names an element without a bounding box (#nb) and the document was accepted: the member was silently left out")
         return
     if not r.ok:
         acc.violation("rejected", "rejected:" + str(r.kind), case, observed=core.trunc(r.err, 400), expected="Ok",
